@@ -311,6 +311,16 @@ def sig(pe, ks, seq, x):
 	return SBool(z3.Or(f, r))
 
 
+SIG_OPAQUE = z3.Function('sig_opaque', I, IntArr, I, IntArr, I, I, I, B)
+
+
+def sig_opaque(pe, ks, seq, x):
+	"""sig as an ARBITRARY predicate of (k, prefix, sequence, x): what a caller proves with it holds for the defined one"""
+	k, P, L = _ks(pe, ks)
+	sq = _arr(seq)
+	return SBool(SIG_OPAQUE(k, P.arr, L, sq.arr, sq.off, sq.length, int_term(x)))
+
+
 def match_wf(pe, ks, seq, pos, reverse):
 	"""a match as find_kmers yields it: the whole prefix + k-mer window lies inside the sequence"""
 	k, P, L = _ks(pe, ks)
@@ -389,8 +399,8 @@ def sigany(pe, ks, seqs, x, upto=None):
 		return sig(pe, ks, seqs, x)
 	j = z3.Int(fresh_name('j'))
 	n = seqs.length if upto is None else int_term(upto)
-	saved = dict(pe.bound)
-	return SBool(z3.Exists([j], z3.And(j >= 0, j < n, truth(sig(pe, ks, seqs.at(j), x)))))
+	sig_ = getattr(getattr(pe, 'eng', None), 'specns', {}).get('sig', sig)      # a target may treat sig as an arbitrary predicate
+	return SBool(z3.Exists([j], z3.And(j >= 0, j < n, truth(sig_(pe, ks, seqs.at(j), x)))))
 
 
 NS['result_dtype_ok'] = result_dtype_ok
